@@ -40,6 +40,21 @@ CHECKS = {
     technique="TLA+ oracle Wire.tla over bit vectors evaluated by TLC; encodings/decoder verdicts compared with pkg/kbin (binding O1)",
     text="Wire.tla defines zig-zag, base-128 groups, big-endian bytes and the decoder (value, bytes consumed, short, overflow) over bit vectors, because TLC integers are 32-bit. TLC computes ~29k cases: encodings of every boundary value of every 7-bit group for 8/16/32/64 bits, decoder verdicts for every control-byte structure up to 5/10 continuation bytes, and length prefixes around the varint borders and null; the runner compares every Append*/length/decoder/Reader method, checks short inputs never panic or over-read, and checks the private copy in pkg/kmsg/internal/kbin is the same source.",
     note="Class coverage instead of 'every 32-bit value'; overlong means longer than the maximal 5/10-byte form (non-minimal shorter forms are accepted by Kafka and by the code)."),
+ "C25": dict(
+    level="exploration", design="5/C25, 4.13",
+    technique="TLA+ predicates (Balancer.tla: ValidPlan, CoopWithheldOnlyMoving) evaluated by TLC on plans the real balancers produce for spec-generated group situations (binding O2)",
+    text="Balancer.tla generates group situations (members, subscriptions incl. unknown topics, generations, prior ownership from valid previous plans to conflicting stale claims, racks, subscription chains) and states the acceptance predicates. The runner feeds each situation to RangeBalancer, RoundRobinBalancer, StickyBalancer, CooperativeStickyBalancer (public MemberBalancer/BalanceOrError/IntoSyncAssignment path, rack map via a verif shim) and to kfake's uniform and range assignors (through computeTargetAssignment); TLC evaluates ValidPlan on every (input, plan).",
+    note="Sampled (seeded hash) rather than exhaustive: 3000 situations quick, 40000 thorough, <=5 members, <=4 topics x <=4 partitions; kfake assignors are fed only server-consistent prior targets."),
+ "C26": dict(
+    level="exploration", design="5/C26, 4.13",
+    technique="TLA+ predicates (Balancer.tla: NoStealPath via graph reachability, StickyFixedPoint) evaluated by TLC on real sticky plans (binding O2)",
+    text="For every sticky and (complete) cooperative-sticky plan of the generated situations TLC evaluates NoStealPath: no member can reach, over edges 'holds a partition of a topic the other subscribes to', a member holding at least two fewer partitions; and StickyFixedPoint: a valid prior without steal path is returned unchanged. The generator includes chain-shaped subscriptions with permuted member ids and up-down-up load profiles, where the steal search must pass through a less loaded member.",
+    note="Sampled; chains up to 5 members; optimality is judged by the property's own chain criterion, not by comparing with another implementation."),
+ "C27": dict(
+    level="model_checking", design="5/C27, 4.9",
+    technique="TLA+ spec Coop.tla model-checked by TLC (protocol design) + the real CooperativeStickyBalancer iterated round by round and judged by Balancer.tla (CoopSafe, Converges) (binding R/O2)",
+    text="Coop.tla (members, any valid leader plan, AdjustCooperative, revoke-then-rejoin) is checked exhaustively for NoDoubleOwner, AllOwnedOnce, TwoRounds and convergence. The real balancer is then run for three rounds per generated situation, members revoking what they lost and rejoining with a bumped generation; TLC evaluates CoopSafe on every round (no partition given to a member while another member with a current-generation claim owns it) and Converges on every chain (round 2 complete, round 3 unchanged).",
+    note="Round iteration applies the member-side rule in the harness (owned := adjusted plan); the end-to-end callback order is C07's subject. Known finding: with rack information a third round can be needed."),
 }
 
 NOT_APPLICABLE = {
